@@ -52,6 +52,11 @@ def run(tier):
             for layout, eol in (("canon", "\n"), ("shift", "\r\n")):
                 p, root = gen_lines.taillevel_case(ntail, query, random.Random(seed * 77 + ntail))
                 add("taillevel", p, root, layout, eol, random.Random(ntail))
+    for ntail in (0, 1, 2):
+        for beyond in ("thread", "chunk", "chunk-level"):
+            for layout, eol in (("canon", "\n"), ("shift", "\n")):
+                p, root = gen_lines.taillevel_case(ntail, "error", random.Random(seed * 79 + ntail), beyond)
+                add("beyondlevel", p, root, layout, eol, random.Random(ntail + 5))
     for variant in ("open", "closed"):
         for layout, eol in (("canon", "\n"), ("shift", "\n")):
             p, root = gen_lines.xthread_case(variant)
